@@ -27,6 +27,10 @@ import (
 //     batch-nonce rule.
 func init() { register(extractC05) }
 
+// the per-record settlement statements whose ORDER matters: the refund reads the from-message mark that the record
+// deletion removes
+var c05SettleStmts = []string{"HandleOutgoingBridgeCallRefund", "DeleteOutgoingBridgeCallRecord", "DeleteOutgoingBridgeCall", "DeleteBridgeCallFromMsg"}
+
 const c05Keeper = "x/crosschain/keeper"
 
 func cmpName(op token.Token) string {
@@ -244,6 +248,32 @@ func callsNamed(c *ctxT, n ast.Node, name string) bool {
 	return hit
 }
 
+// callsInOrder lists, in source order, the calls inside n whose function name is one of names.
+func callsInOrder(n ast.Node, names ...string) []string {
+	var out []string
+	if n == nil {
+		return out
+	}
+	ast.Inspect(n, func(x ast.Node) bool {
+		if ce, ok := x.(*ast.CallExpr); ok {
+			nm := ""
+			if se, ok := ce.Fun.(*ast.SelectorExpr); ok {
+				nm = se.Sel.Name
+			}
+			if id, ok := ce.Fun.(*ast.Ident); ok {
+				nm = id.Name
+			}
+			for _, w := range names {
+				if nm == w {
+					out = append(out, nm)
+				}
+			}
+		}
+		return true
+	})
+	return out
+}
+
 func iterKind(c *ctxT, fd *ast.FuncDecl) string {
 	if fd == nil {
 		return "unknown"
@@ -388,6 +418,7 @@ func extractC05(c *ctxT) {
 	// ---- cleanupTimeOutBridgeCall ------------------------------------------------------------------------
 	{
 		cmp, src, stops, refunds, deletes := "unknown", "unknown", false, false, false
+		var cleanupBody []string
 		if fd := c.findFunc(c05Keeper, "Keeper", "cleanupTimeOutBridgeCall"); fd != nil {
 			if fl := firstFuncLit(fd); fl != nil {
 				op, other, ifs := timeoutCmp(c, fl.Body, "Timeout")
@@ -408,6 +439,7 @@ func extractC05(c *ctxT) {
 					rest := &ast.BlockStmt{List: fl.Body.List[1:]}
 					refunds = callsNamed(c, rest, "HandleOutgoingBridgeCallRefund")
 					deletes = callsNamed(c, rest, "DeleteOutgoingBridgeCallRecord")
+					cleanupBody = callsInOrder(rest, c05SettleStmts...)
 				}
 			}
 		}
@@ -416,6 +448,7 @@ func extractC05(c *ctxT) {
 		def("callCleanupStops", "Bool", leanBool(stops), "the guard body is exactly `return true` (stop the iteration)")
 		def("callCleanupRefunds", "Bool", leanBool(refunds), "records passing the guard are refunded")
 		def("callCleanupDeletes", "Bool", leanBool(deletes), "records passing the guard are deleted")
+		def("callCleanupBody", "List String", leanStrs(cleanupBody), "what cleanupTimeOutBridgeCall does to every record passing the guard: its refund / delete-record / delete-mark calls, in source order (the model runs them in this order)")
 	}
 	// ---- callers of the cleanup functions; order inside TryAttestation --------------------------------
 	{
@@ -766,8 +799,15 @@ func extractC05(c *ctxT) {
 		def("callRefundReceiver", "CallRefundTo", "."+to, "HandleOutgoingBridgeCallRefund pays the record's refund address / its sender")
 		// BridgeCallResultHandler: per outcome, is the record refunded / deleted
 		refundF, refundS, delF, delS := false, false, false, false
+		var bodyF, bodyS []string
 		if fd := c.findFunc(c05Keeper, "Keeper", "BridgeCallResultHandler"); fd != nil && fd.Body != nil {
 			mark := func(n ast.Node, onF, onS bool) {
+				if onF {
+					bodyF = append(bodyF, callsInOrder(n, c05SettleStmts...)...)
+				}
+				if onS {
+					bodyS = append(bodyS, callsInOrder(n, c05SettleStmts...)...)
+				}
 				if callsNamed(c, n, "HandleOutgoingBridgeCallRefund") {
 					refundF, refundS = refundF || onF, refundS || onS
 				}
@@ -804,6 +844,8 @@ func extractC05(c *ctxT) {
 		def("resultRefundsOnSuccess", "Bool", leanBool(refundS), "… when it says success")
 		def("resultDeletesOnFailure", "Bool", leanBool(delF), "BridgeCallResultHandler deletes the record when the result says failure")
 		def("resultDeletesOnSuccess", "Bool", leanBool(delS), "… when it says success")
+		def("resultFailureBody", "List String", leanStrs(bodyF), "what BridgeCallResultHandler does to the record when the result says failure: its refund / delete-record / delete-mark calls, in source order (the model runs them in this order)")
+		def("resultSuccessBody", "List String", leanStrs(bodyS), "… when it says success")
 	}
 	// ---- what the message servers hand over, and which field of the stored record gets which argument ----------------
 	{
@@ -943,6 +985,13 @@ func extractC05(c *ctxT) {
 			dropsFromMsg = callsNamed(c, fd.Body, "DeleteBridgeCallFromMsg")
 		}
 		def("deleteRecordDropsFromMsg", "Bool", leanBool(dropsFromMsg), "DeleteOutgoingBridgeCallRecord deletes the BridgeCallFromMsg mark")
+		{
+			var body []string
+			if fd := c.findFunc(c05Keeper, "Keeper", "DeleteOutgoingBridgeCallRecord"); fd != nil && fd.Body != nil {
+				body = callsInOrder(fd.Body, "HandleOutgoingBridgeCallRefund", "DeleteOutgoingBridgeCall", "DeleteBridgeCallConfirm", "DeleteBridgeCallFromMsg")
+			}
+			def("deleteRecordBody", "List String", leanStrs(body), "the calls of DeleteOutgoingBridgeCallRecord, in source order")
+		}
 		// MsgServer.BridgeCall marks the nonce AddOutgoingBridgeCall returned
 		setsFromMsg := false
 		if fd := c.findFunc(c05Keeper, "MsgServer", "BridgeCall"); fd != nil {
@@ -956,6 +1005,23 @@ func extractC05(c *ctxT) {
 		def("precompileBridgeCallSetsFromMsg", "Bool", leanBool(preRun != nil && callsNamed(c, preRun.Body, "SetBridgeCallFromMsg")), "the bridgeCall precompile marks its record as BridgeCallFromMsg")
 		a1, _ := callArgs(preRun, "AddOutgoingBridgeCall")
 		def("bridgeCallPrecompileArgs", "List String", leanList(a1), "arguments BridgeCallMethod.Run passes to AddOutgoingBridgeCall")
+		// increaseBridgeFee: MsgServer.IncreaseBridgeFee / IncreaseBridgeFeeMethod.Run -> AddUnbatchedTxBridgeFee, and where the
+		// precompile takes the added fee from (handlerERC20Token with the caller)
+		{
+			var msgArgs []string
+			if fd := c.findFunc(c05Keeper, "MsgServer", "IncreaseBridgeFee"); fd != nil {
+				msgArgs, _ = callArgs(fd, "AddUnbatchedTxBridgeFee")
+			}
+			def("incFeeMsgArgs", "List String", leanList(msgArgs), "arguments MsgServer.IncreaseBridgeFee passes to AddUnbatchedTxBridgeFee")
+			def("incFeeAddParams", "List String", leanList(paramsOf(c.findFunc(c05Keeper, "Keeper", "AddUnbatchedTxBridgeFee"))), "parameter names of AddUnbatchedTxBridgeFee")
+			ifRun := c.findFunc(pre, "IncreaseBridgeFeeMethod", "Run")
+			a5, _ := callArgs(ifRun, "AddUnbatchedTxBridgeFee")
+			def("incFeePrecompileArgs", "List String", leanList(a5), "arguments IncreaseBridgeFeeMethod.Run passes to AddUnbatchedTxBridgeFee")
+			a6, _ := callArgs(ifRun, "handlerERC20Token")
+			def("incFeePrecompileTakeArgs", "List String", leanList(a6), "arguments IncreaseBridgeFeeMethod.Run passes to handlerERC20Token (whose ERC-20 balance pays, which token, how much)")
+			a7, _ := callArgs(ifRun, "ConvertDenomToTarget")
+			def("incFeePrecompileConvertArgs", "List String", leanList(a7), "arguments IncreaseBridgeFeeMethod.Run passes to ConvertDenomToTarget (base coins of the caller -> bridge denom)")
+		}
 		// crossChain precompile: Run -> handlerCrossChain -> outgoingTransfer -> AddToOutgoingPool, then the relation
 		ccRun := c.findFunc(pre, "CrossChainMethod", "Run")
 		a2, _ := callArgs(ccRun, "handlerCrossChain")
